@@ -167,7 +167,7 @@ def expectations(lib, promiscuous, ignores):
             elif forbidden(e):
                 why_not = "signature involves a private/protected type"
             if why_not:
-                must_not[(cls["id"], e["id"])] = why_not
+                must_not[(cls["id"], e.get("name_id", e["id"]))] = why_not
                 continue
             if in_ns or cls["id"] in ign_type or e["name"] in ign_member or cls["file"] in ign_file or involves(e, ignores.get("involved", set())):
                 continue            # not decided here
@@ -177,7 +177,7 @@ def expectations(lib, promiscuous, ignores):
                 continue
             if k == "field" and e["t"].kind == "obj" and e["t"].mode == 0:
                 continue
-            must[(cls["id"], e["id"])] = "%s %s member of a command-line class" % (e["vis"], k)
+            must[(cls["id"], e.get("name_id", e["id"]))] = "%s %s member of a command-line class" % (e["vis"], k)
         else:
             gv = 0 if e.get("inpub") else 1
             why_not = None
